@@ -343,7 +343,7 @@ RULE = ('cases = (transform form, table, arguments); %d forms covering cut, cuto
         'namedtuples / columns accessors; seeded random tables of 0-5 rows x 1-4 fields, ragged rows (40 %% of cases where the form tolerates them), '
         'duplicate field names where resolution is by the index/name rule, field selection by name / index / mixed, negative and out-of-range '
         'insertion indices. Non-trivial: >= 2 data rows. Distinct = SHA-1 of the case.' % len(FORMS))
-REQUIRED = ['views-read-twice', 'views-re-read-after-an-in-place-edit-of-the-source', 'marker-equal-but-not-identical'] + ['form:' + f for f in FORMS] + ['ragged-judged', 'duplicate-names-judged', 'frame-condition-used', 'exact-comparison-used',
+REQUIRED = ['views-read-twice', 'field-names-given-as-str-subclass-instances', 'views-re-read-after-an-in-place-edit-of-the-source', 'marker-equal-but-not-identical'] + ['form:' + f for f in FORMS] + ['ragged-judged', 'duplicate-names-judged', 'frame-condition-used', 'exact-comparison-used',
                                            'negative-or-out-of-range-insertion-index', 'cat:repeated-field-name-in-a-later-table',
                                            'fieldmap:suffix-notation-two-views']
 
@@ -405,6 +405,13 @@ def judge(case, ctx):
     frame = is_ragged and f.ragged == 'frame'
     ctx.seen('frame-condition-used' if frame else 'exact-comparison-used')
     J = globals()['j_' + name.replace('-', '_')]
+    if int(util.fp(case)[6:8], 16) % 7 == 0:
+        # field names handed over as instances of a str subclass (what numpy, enum mix-ins, markup libraries give out)
+        case = dict(case)
+        for k_ in ('spec', 'field', 'fields', 'key', 'include', 'exclude'):
+            if k_ in case and k_ != 'field' or (k_ == 'field' and isinstance(case.get(k_), (str, list, tuple)) and name in ('cut', 'cutout', 'movefield', 'convert', 'replace', 'update', 'filldown')):
+                case[k_] = util.names_as_subtypes(case[k_])
+        ctx.seen('field-names-given-as-str-subclass-instances')
     LIVE[0] = table if type(table) is list else None
     e0 = util.EDITED[0]
     try:
